@@ -61,12 +61,26 @@ var c08Names = []string{"ignored.example", "x.ignored.example", "ads.test", "a.a
 var c08Addrs = []string{"192.168.1.5", "192.168.1.6", "192.168.0.0", "192.168.77.1", "10.0.0.7",
 	"2001:db8::1234:5678", "2001:db8::", "2001:db8:0:1:1:2:3:4", "::ffff:192.168.1.5", "fe80::1%eth0"}
 
+// nested CIDR chains (broadest first) with addresses inside the narrowest, inside
+// the middle one only, and inside the broadest only
+var c08Nests = []struct {
+	chain []string
+	addrs []string
+}{
+	{[]string{"192.168.0.0/16", "192.168.1.0/24", "192.168.1.4/30"}, []string{"192.168.1.5", "192.168.1.6", "192.168.1.77", "192.168.77.1", "192.168.0.0"}},
+	{[]string{"10.0.0.0/8", "10.0.0.0/24"}, []string{"10.0.0.7", "10.9.9.9"}},
+	{[]string{"2001:db8::/32", "2001:db8::/64", "2001:db8::1234:0/112"}, []string{"2001:db8::1234:5678", "2001:db8::", "2001:db8:0:1:1:2:3:4"}},
+	{[]string{"fe80::/10", "fe80::/64"}, []string{"fe80::1%eth0", "fe80::2%eth1"}},
+	{[]string{"0.0.0.0/0", "192.168.0.0/16"}, []string{"192.168.77.1", "10.0.0.7"}},
+}
+
 var c08ClientIDs = []string{"", "", "", "cli1", "cli2", "aa-bb-cc-dd-ee-01"}
 
 // identifiers persistent clients are made of
 var c08Idents = []string{"192.168.1.5", "192.168.1.6", "192.168.0.0", "10.0.0.7", "192.168.0.0/16", "192.168.1.0/24", "10.0.0.0/8",
 	"2001:db8::1234:5678", "2001:db8::", "2001:db8::/32", "::ffff:192.168.1.5", "fe80::1%eth0", "fe80::/64",
-	"aa:bb:cc:dd:ee:01", "aa:bb:cc:dd:ee:02", "cli1", "cli2"}
+	"aa:bb:cc:dd:ee:01", "aa:bb:cc:dd:ee:02", "cli1", "cli2",
+	"192.168.1.4/30", "10.0.0.0/24", "2001:db8::/64", "fe80::/10"}
 
 // ---- DHCP stub
 
@@ -382,6 +396,7 @@ type c08Scen struct {
 	allowStat  map[string]int
 	allowDom   map[string]int
 	nQueries   int
+	switchVia  string // the handler that last switched anonymisation at run time
 	anonSeen   bool
 	macDiverge bool
 	nForbidden int
@@ -481,7 +496,16 @@ func c08New(t *testing.T, base string, n int, anon, refuse bool, qRules, sRules 
 	// iterations at chosen points (a second, concurrent flusher would race on the
 	// unit id that flush reads before taking the locks)
 	stats.VerifStartWithoutFlusher(sc.st)
-	sc.srv = &Server{baseLogger: slogutil.NewDiscardLogger(), queryLog: sc.ql, stats: sc.st, anonymizer: sc.mut}
+	// The object graph of home.initDNS / initDNSServer: the ONE IPMut made from
+	// the configured flag (config.anonymizer()) was handed to querylog.New above
+	// and is handed to dnsforward.NewServer here; the server is what the real
+	// constructor makes of it, not a literal.
+	sc.srv, err = NewServer(DNSCreateParams{
+		Logger: slogutil.NewDiscardLogger(), Stats: sc.st, QueryLog: sc.ql, Anonymizer: sc.mut,
+	})
+	if err != nil {
+		t.Fatalf("NewServer: %v", err)
+	}
 	sc.srv.conf.RefuseAny = refuse
 	sc.head = vfBool(anon) + " " + vfBool(refuse) + " " + c08NamesCoq() + " " + c08RulesCoq(qRules) + " " + c08Table(sc.qEngine) +
 		" " + c08RulesCoq(sRules) + " " + c08Table(sc.sEngine)
@@ -558,6 +582,9 @@ func (sc *c08Scen) query(spelled string, any bool, addr netip.Addr, cid string) 
 	} else {
 		sc.cls2["anon-off"] = true
 	}
+	if sc.switchVia != "" {
+		sc.cls2["query-after-anon-switch-"+sc.switchVia] = true
+	}
 	nameIgnQ, nameIgnS := sc.qEngine.Has(norm), sc.sEngine.Has(norm)
 	// ... and by the property's own reading of the configured entries, whatever
 	// the engine built from them says
@@ -572,6 +599,7 @@ func (sc *c08Scen) query(spelled string, any bool, addr netip.Addr, cid string) 
 	if nameIgnQ || nameIgnS {
 		sc.cls2["name-ignored"] = true
 	}
+	sc.nestClasses(cid, addr, owner)
 	if owner != nil {
 		if owner.IgnoreQueryLog || owner.IgnoreStatistics {
 			sc.cls2["client-ignored"] = true
@@ -628,6 +656,77 @@ func (sc *c08Scen) updateClient(name string, ids []string, ignQ, ignS bool) {
 	sc.desc = append(sc.desc, fmt.Sprintf("update client %s %v ignore_querylog=%v ignore_statistics=%v -> %v", name, ids, ignQ, ignS, err == nil))
 }
 
+func (sc *c08Scen) removeClient(name string) {
+	ok := sc.stor.RemoveByName(context.Background(), name)
+	if ok {
+		delete(sc.cls, name)
+	}
+	sc.evs = append(sc.evs, vfApp("SOp", vfApp("ORemove", vfBytes(name))))
+	sc.desc = append(sc.desc, fmt.Sprintf("remove client %s -> %v", name, ok))
+}
+
+// nestClasses: the branch classes of a request that reaches the CIDR stage of
+// the lookup (no ClientID owner, no exact-address owner).
+func (sc *c08Scen) nestClasses(cid string, a netip.Addr, owner *client.Persistent) {
+	for _, c := range sc.cls {
+		for _, x := range c.ClientIDs {
+			if cid != "" && x == cid {
+				return
+			}
+		}
+	}
+	var exact *client.Persistent
+	for _, c := range sc.cls {
+		for _, x := range c.IPs {
+			if x == a {
+				exact = c
+			}
+		}
+	}
+	var holders []*client.Persistent
+	for _, c := range sc.cls {
+		for _, p := range c.Subnets {
+			if p.Contains(a.WithZone("")) {
+				holders = append(holders, c)
+				break
+			}
+		}
+	}
+	if exact != nil {
+		for _, h := range holders {
+			if h != exact {
+				sc.cls2["cidr-vs-exact-ip"] = true
+				if h.IgnoreQueryLog != exact.IgnoreQueryLog || h.IgnoreStatistics != exact.IgnoreStatistics {
+					sc.cls2["cidr-vs-exact-ip-flags-differ"] = true
+				}
+			}
+		}
+		return
+	}
+	if len(holders) > 0 {
+		if m := sc.dhcp.MACByIP(a); m != nil {
+			if mo := c08OwnerOfMAC(sc.cls, m); mo != nil && mo != owner {
+				sc.cls2["cidr-vs-lease-mac"] = true
+			}
+		}
+	}
+	if len(holders) < 2 || owner == nil {
+		return
+	}
+	sc.cls2["nested-cidr"] = true
+	for _, h := range holders {
+		if h == owner {
+			continue
+		}
+		if h.IgnoreQueryLog != owner.IgnoreQueryLog || h.IgnoreStatistics != owner.IgnoreStatistics {
+			sc.cls2["nested-cidr-flags-differ"] = true
+		}
+		if (owner.IgnoreQueryLog && !h.IgnoreQueryLog) || (owner.IgnoreStatistics && !h.IgnoreStatistics) {
+			sc.cls2["nested-cidr-narrow-ignored"] = true
+		}
+	}
+}
+
 func (sc *c08Scen) setDHCP(tbl map[netip.Addr]net.HardwareAddr) {
 	sc.dhcp.tbl = tbl
 	var items, d []string
@@ -659,7 +758,7 @@ func (sc *c08Scen) call(method, url string, body string) *httptest.ResponseRecor
 // readConf reads the configuration back through the real API and probes the
 // shared IPMut; the monitor's notion of "anonymisation configured" is what
 // GET /control/querylog/config says.
-func (sc *c08Scen) readConf() string {
+func (sc *c08Scen) readConf(via string) string {
 	w := sc.call(http.MethodGet, "/control/querylog/config", "")
 	var resp struct {
 		Enabled bool `json:"enabled"`
@@ -668,11 +767,21 @@ func (sc *c08Scen) readConf() string {
 	if err := json.Unmarshal(w.Body.Bytes(), &resp); err != nil {
 		sc.t.Fatalf("get config: %v: %s", err, w.Body.String())
 	}
-	probe := net.IP{1, 2, 3, 4}
+	probe, probeSrv := net.IP{1, 2, 3, 4}, net.IP{1, 2, 3, 4}
 	sc.mut.Load()(probe)
+	sc.srv.anonymizer.Load()(probeSrv)
+	if resp.Anon != sc.anon {
+		// switched at run time: the queries that follow are classed by the handler
+		// that did it
+		sc.switchVia = via
+		if !resp.Anon {
+			sc.switchVia = "off-" + via
+		}
+	}
 	sc.anon = resp.Anon
 	sc.anonSeen = sc.anonSeen || resp.Anon
-	return "(" + vfBool(resp.Enabled) + ", " + vfBool(resp.Anon) + ", " + vfBool(probe[2] == 0 && probe[3] == 0) + ")"
+	return "(" + vfBool(resp.Enabled) + ", " + vfBool(resp.Anon) + ", " + vfBool(probe[2] == 0 && probe[3] == 0) + ", " +
+		vfBool(probeSrv[2] == 0 && probeSrv[3] == 0) + ")"
 }
 
 func (sc *c08Scen) setConf(enabled, anon bool, rules []string) {
@@ -686,7 +795,7 @@ func (sc *c08Scen) setConf(enabled, anon bool, rules []string) {
 	}
 	sc.qRules = rules
 	sc.qEngine, _ = aghnet.NewIgnoreEngine(rules)
-	obs := sc.readConf()
+	obs := sc.readConf("put")
 	sc.evs = append(sc.evs, vfApp("SConf", vfBool(enabled), vfBool(anon), c08RulesCoq(rules), c08Table(sc.qEngine), obs))
 	c08RuleClasses(sc.cls2, rules)
 	sc.desc = append(sc.desc, fmt.Sprintf("PUT querylog/config/update enabled=%v anonymize=%v ignored=%v", enabled, anon, rules))
@@ -713,7 +822,7 @@ func (sc *c08Scen) legacyConf(enabled, anon *bool, interval *float64) {
 	if w.Code != http.StatusOK {
 		sc.t.Fatalf("legacy config: %d %s", w.Code, w.Body.String())
 	}
-	obs := sc.readConf()
+	obs := sc.readConf("legacy")
 	sc.evs = append(sc.evs, vfApp("SLegacy", optE, optA, obs))
 	sc.desc = append(sc.desc, fmt.Sprintf("POST querylog_config %s", body))
 	sc.cls2["config-legacy"] = true
@@ -866,6 +975,9 @@ func (sc *c08Scen) readStats() (doms, clis []string, num uint64) {
 			} else {
 				clis = append(clis, "("+vfBytes(k)+", "+vfBytes("")+", "+vfN(n)+")")
 			}
+			if a, perr := netip.ParseAddr(k); perr == nil && int(n) > sc.allowStat[k] && sc.everAnon() && !c08Masked(a) {
+				sc.fail("unmasked-client-in-stats", fmt.Sprintf("statistics hold %d queries under the full client address %s; only %d such queries were processed while anonymisation was configured off", n, k, sc.allowStat[k]))
+			}
 			if int(n) > sc.allowStat[k] {
 				sc.fail(sc.divKey("forbidden-client-in-stats"), fmt.Sprintf("statistics count %d queries for client %q; only %d may be counted (ignored clients / names, anonymisation as configured)", n, k, sc.allowStat[k]))
 			}
@@ -916,8 +1028,22 @@ func (sc *c08Scen) finish(out *vfOut, tag string) {
 	if len(oldItems) > 0 {
 		sc.cls2["rotated-file-nonempty"] = true
 	}
-	for k, n := range stored {
-		if n > sc.allowLog[k] {
+	storedKeys := make([]string, 0, len(stored))
+	for k := range stored {
+		storedKeys = append(storedKeys, k)
+	}
+	sort.Strings(storedKeys)
+	// the anonymisation clause at the storage level: a full address on disk needs
+	// a query processed while anonymisation was configured off
+	for _, k := range storedKeys {
+		if n := stored[k]; n > sc.allowLog[k] && sc.everAnon() {
+			if a, perr := netip.ParseAddr(strings.Split(k, "|")[1]); perr == nil && !c08Masked(a) {
+				sc.fail("unmasked-address-in-querylog", fmt.Sprintf("querylog.json / querylog.json.1 hold %d record(s) %s with the full client address; only %d such queries were processed while anonymisation was configured off (GET /control/querylog/config)", n, k, sc.allowLog[k]))
+			}
+		}
+	}
+	for _, k := range storedKeys {
+		if n := stored[k]; n > sc.allowLog[k] {
 			sc.fail(sc.divKey("forbidden-record-in-querylog"), fmt.Sprintf("querylog.json / querylog.json.1 hold %d record(s) %s; only %d queries with an un-ignored name and client could have produced it (anonymisation per query as configured)", n, k, sc.allowLog[k]))
 		}
 	}
@@ -1069,6 +1195,70 @@ func c08Prelude(t *testing.T, out *vfOut, base string) (n int) {
 		sc.finish(out, "prelude-rotation")
 	}
 
+	// nested CIDRs (round 4, H): the most specific containing prefix decides,
+	// whatever the order of insertion and whatever the broader client's flags;
+	// an exact address inside a CIDR beats it; a CIDR beats the lease's MAC
+	for _, anon := range []bool{false, true} {
+		for _, narrowFirst := range []bool{false, true} {
+			sc := c08New(t, base, n, anon, false, nil, nil)
+			n++
+			adds := []func(){
+				func() { sc.addClient("lan", []string{"192.168.0.0/16", "2001:db8::/32"}, false, false) },
+				func() { sc.addClient("kids", []string{"192.168.1.0/24", "2001:db8::/64"}, true, true) },
+				func() { sc.addClient("split", []string{"192.168.1.4/30", "fe80::/64"}, true, false) },
+				func() { sc.addClient("ll", []string{"fe80::/10"}, false, true) },
+			}
+			if narrowFirst {
+				for i := len(adds) - 1; i >= 0; i-- {
+					adds[i]()
+				}
+			} else {
+				for _, f := range adds {
+					f()
+				}
+			}
+			from := []string{"192.168.1.5", "192.168.1.77", "192.168.77.1", "2001:db8::1234:5678", "2001:db8:0:1:1:2:3:4",
+				"fe80::1%eth0", "::ffff:192.168.1.5", "10.0.0.7"}
+			for _, a := range from {
+				sc.query("ok.example.", false, ap(a), "")
+				sc.query("Plain.Test", false, ap(a), "cli2") // a ClientID nobody lists
+			}
+			sc.search("memory")
+			sc.stats("after-change")
+			// the narrower client loses its flags, the broader one gets them
+			sc.updateClient("kids", []string{"192.168.1.0/24", "2001:db8::/64"}, false, false)
+			sc.updateClient("lan", []string{"192.168.0.0/16", "2001:db8::/32"}, true, true)
+			for _, a := range from {
+				sc.query("sub.ok.example.", false, ap(a), "")
+			}
+			sc.search("memory-after-change")
+			sc.flush()
+			// the narrower client is removed: its range falls to the broader one
+			sc.removeClient("kids")
+			for _, a := range from {
+				sc.query("tracker.example.", false, ap(a), "")
+			}
+			sc.search("file")
+			sc.finish(out, "prelude-nested-cidr")
+		}
+		// exact address inside a CIDR, lease MAC inside / outside a CIDR
+		sc := c08New(t, base, n, anon, false, nil, nil)
+		n++
+		sc.addClient("net", []string{"192.168.1.0/24"}, true, true)
+		sc.addClient("printer", []string{"192.168.1.6"}, false, false)
+		sc.addClient("net10", []string{"10.0.0.0/8"}, false, false)
+		sc.addClient("nas", []string{"10.0.0.7"}, true, true)
+		sc.addClient("bymac", []string{"aa:bb:cc:dd:ee:01"}, true, true)
+		sc.addClient("bymac2", []string{"aa:bb:cc:dd:ee:02"}, false, false)
+		sc.setDHCP(map[netip.Addr]net.HardwareAddr{ap("10.9.9.9"): c08MAC("aa:bb:cc:dd:ee:01"), ap("192.168.77.1"): c08MAC("aa:bb:cc:dd:ee:01"),
+			ap("192.168.1.77"): c08MAC("aa:bb:cc:dd:ee:02")})
+		for _, a := range []string{"192.168.1.5", "192.168.1.6", "192.168.1.77", "10.0.0.7", "10.9.9.9", "192.168.77.1"} {
+			sc.query("ok.example.", false, ap(a), "")
+		}
+		sc.search("memory")
+		sc.finish(out, "prelude-cidr-exact-lease")
+	}
+
 	// deprecated POST /control/querylog_config: every field present / absent,
 	// starting with anonymisation configured on and off
 	for _, anon := range []bool{true, false} {
@@ -1153,11 +1343,49 @@ func c08Rand(t *testing.T, out *vfOut, base string, n int, r *vfRand) {
 	for i := r.Intn(4); i > 0; i-- {
 		addClient(false)
 	}
+	// one scenario in three: a chain of nested CIDRs spread over the clients (in
+	// a random order of insertion, each link with its own flags), sometimes with
+	// an exact address or a leased MAC inside; queries then come mostly from
+	// inside the chain
+	var nestAddrs []string
 	if r.Chance(1, 3) {
+		nest := c08Nests[r.Intn(len(c08Nests))]
+		nestAddrs = nest.addrs
+		order := make([]int, len(nest.chain))
+		for i := range order {
+			order[i] = i
+		}
+		for i := len(order) - 1; i > 0; i-- {
+			j := r.Intn(i + 1)
+			order[i], order[j] = order[j], order[i]
+		}
+		for _, k := range order {
+			ids := []string{nest.chain[k]}
+			if r.Chance(1, 4) {
+				ids = append(ids, vfPick(r, c08Idents))
+			}
+			sc.addClient(fmt.Sprintf("n%d", k), ids, r.Bool(), r.Bool())
+		}
+		if r.Chance(1, 3) {
+			sc.addClient("nx", []string{strings.Split(vfPick(r, nest.addrs), "%")[0]}, r.Bool(), r.Bool())
+		}
+		if r.Chance(1, 3) {
+			sc.addClient("nm", []string{"aa:bb:cc:dd:ee:02"}, r.Bool(), r.Bool())
+			sc.setDHCP(map[netip.Addr]net.HardwareAddr{ap(strings.Split(vfPick(r, nest.addrs), "%")[0]): c08MAC("aa:bb:cc:dd:ee:02")})
+		}
+	} else if r.Chance(1, 3) {
 		sc.setDHCP(map[netip.Addr]net.HardwareAddr{ap(vfPick(r, c08Addrs[:5])): c08MAC(vfPick(r, []string{"aa:bb:cc:dd:ee:01", "aa:bb:cc:dd:ee:02"}))})
 	}
 	query := func() {
-		sc.query(c08Spell(r, vfPick(r, c08Names)), r.Chance(1, 6), ap(vfPick(r, c08Addrs)), vfPick(r, c08ClientIDs))
+		a := vfPick(r, c08Addrs)
+		cid := vfPick(r, c08ClientIDs)
+		if nestAddrs != nil && r.Chance(3, 4) {
+			a = vfPick(r, nestAddrs)
+			if r.Chance(2, 3) {
+				cid = ""
+			}
+		}
+		sc.query(c08Spell(r, vfPick(r, c08Names)), r.Chance(1, 6), ap(a), cid)
 	}
 	for i := 3 + r.Intn(6); i > 0; i-- {
 		query()
@@ -1183,7 +1411,37 @@ func c08Rand(t *testing.T, out *vfOut, base string, n int, r *vfRand) {
 	case 1:
 		addClient(true)
 	case 2:
-		sc.setConf(true, !sc.anon, sc.qRules)
+		// anonymisation switched at run time; what is recorded afterwards is
+		// looked at in the files and in the statistics
+		// (through either handler)
+		if r.Bool() {
+			sc.setConf(true, !sc.anon, sc.qRules)
+		} else {
+			v := !sc.anon
+			var e *bool
+			if r.Chance(1, 3) {
+				tr := true
+				e = &tr
+			}
+			sc.legacyConf(e, &v, nil)
+		}
+		for i := 1 + r.Intn(3); i > 0; i-- {
+			query()
+		}
+	}
+	if nestAddrs != nil && r.Chance(1, 3) {
+		// a link of the chain changes its flags or goes away
+		k := r.Intn(3)
+		if c, ok := sc.cls[fmt.Sprintf("n%d", k)]; ok {
+			if r.Bool() {
+				sc.removeClient(c.Name)
+			} else {
+				sc.updateClient(c.Name, c.IDs(), r.Bool(), r.Bool())
+			}
+			for i := 1 + r.Intn(3); i > 0; i-- {
+				query()
+			}
+		}
 	}
 	if r.Chance(1, 3) {
 		// deprecated endpoint, each field present or absent
